@@ -199,7 +199,17 @@ def replay_common(ctx, path, pid):
         im = im.reanalysed(rep.get("flag_deps", False), sub=rep.get("reanalysed_sub_range"))
         print("(second analysis of the same instruction-form objects)")
     else:
-        im = dgcheck.Impl(rep["isa"], rep["arch"], rep["kernel"], rep.get("flag_deps", False))
+        try:
+            im = dgcheck.Impl(rep["isa"], rep["arch"], rep["kernel"], rep.get("flag_deps", False))
+        except Exception as e:  # noqa  (the recorded failure is the exception itself)
+            if not rep.get("exception"):
+                raise
+            import traceback
+
+            tb = traceback.extract_tb(e.__traceback__)[-1]
+            print("the analysis raises %s: %s  (%s:%d, in %s)" % (type(e).__name__, e, tb.filename, tb.lineno, tb.name))
+            ctx.cleanup()
+            return 1
     print("edges:", sorted(im.edges().items()))
     print("critical path:", im.cp())
     print("LCD:", sorted(im.lcd_set()))
